@@ -2,7 +2,7 @@
 labelled streams (no option, -c, -d DIR / -f -d DIR); the extracted Coq model of the script;
 the C host-list parser (hl harness) and, for a sample, the rebuilt pdsh binary to read the
 headers back."""
-import os, re, subprocess, shutil, tempfile
+import os, re, subprocess, shutil, tempfile, zlib
 from concurrent.futures import ThreadPoolExecutor
 import vlib
 from vlib import hexs, unhex, hexlist, unhexlist
@@ -64,11 +64,32 @@ class Bak:
                 except OSError:
                     pass
             args += ["-d", d]
+        # one stream in three is handed over as two or three file arguments instead of standard input, cut at line ends chosen by
+        # a hash of the stream (so a replay cuts at the same places); a piece that is not the last loses its final newline -
+        # the script supplies the newline an unterminated last line of any input file lacks, so the result is the same
+        inp, fdir = stream, None
+        h = zlib.crc32(stream)
+        ends = [i + 1 for i in range(len(stream) - 1) if stream[i:i + 1] == b"\n"]
+        if h % 3 == 0 and ends:
+            k = 1 + (h >> 4) % 2
+            cuts = sorted({ends[(h >> (8 + 5 * j)) % len(ends)] for j in range(k)})
+            pieces = [stream[a:b] for a, b in zip([0] + cuts, cuts + [len(stream)])]
+            fdir = tempfile.mkdtemp(prefix="in%d-" % idx, dir=self.tmp)
+            for j, pc in enumerate(pieces):
+                if j < len(pieces) - 1 and pc.endswith(b"\n") and not pc.endswith(b"\n\n") and pc != b"\n" and (h >> 3) % 4 != 0:
+                    pc = pc[:-1]
+                fn = os.path.join(fdir, "part%d.out" % j)
+                with open(fn, "wb") as f:
+                    f.write(pc)
+                args.append(fn)
+            inp = b""
         try:
-            p = subprocess.run(args, input=stream, stdout=subprocess.PIPE, stderr=subprocess.PIPE, env=env, timeout=60)
+            p = subprocess.run(args, input=inp, stdout=subprocess.PIPE, stderr=subprocess.PIPE, env=env, timeout=60)
             rc, out, err = p.returncode, p.stdout, p.stderr
         except subprocess.TimeoutExpired:
             rc, out, err = -999, b"", b"timeout"
+        if fdir:
+            shutil.rmtree(fdir, ignore_errors=True)
         files = None
         if d is not None:
             files = {}
